@@ -645,7 +645,9 @@ func (e *Exec) describeStuck() []string {
 // loop is the scheduler. It runs in the bubble's root goroutine.
 func (e *Exec) loop() {
 	for {
+		spinEnter()
 		synctest.Wait()
+		spinLeave()
 		e.mu.Lock()
 		if e.panicVal != "" {
 			e.verdict = Verdict{Kind: "panic", Detail: e.panicVal}
@@ -757,6 +759,7 @@ func (e *Exec) loop() {
 		g.inOp = true
 		g.wasBlocked = false
 		e.lastRun = g
+		spin.g.Store(g)
 		e.mu.Unlock()
 		g.wake <- c.alt
 	}
@@ -810,7 +813,9 @@ func RunOnce(t *testing.T, s Strategy, cfg Config, body func()) *Result {
 		// tear down whatever is left
 		e.aborted.Store(true)
 		close(e.abortCh)
+		spinEnter()
 		synctest.Wait()
+		spinLeave()
 		e.mu.Lock()
 		left := 0
 		for _, g := range e.gs {
